@@ -1,5 +1,5 @@
 ------------------------------ MODULE TV_Batch ------------------------------
-(* ndjson: {"tid","kind":"batch","arr":[palette ids],"field","T":[l][m][k][p][3] q12,"single":[l][k] -> [m][p][3] q12,"same":bool,"fin":bool} *)
+(* ndjson: {"tid","kind":"batch","arr":[palette ids],"field","T":[l][m][k][p][3] q12,"single":[l][k] -> [m][p][3] q12,"same":bool,"fin","finT","finS","raised":bool} *)
 (*         {"tid","kind":"linear","cls","field","a","b","obs","obs1","obs2" : [i][3] q12, "fin"}                                              *)
 (*         {"tid","kind":"super","field","whole":[i][3],"parts":[l][i][3],"fin"}                                                              *)
 EXTENDS Batch, TLC, Json, IOUtils
@@ -7,7 +7,9 @@ VARIABLE x
 Trace == ndJsonDeserialize(IOEnv.TRACE_FILE)
 OK == <<"ok", "ok">>
 Verdict(ev) ==
-  IF ~ev.fin THEN <<"-", "NonFinite">>
+  IF ev.kind = "batch" /\ ev.raised THEN <<"C06", "BatchCallFailsWhereSingleCallsSucceed">>      \* the outcome of a valid call depends on what else is in it
+  ELSE IF ev.kind = "batch" /\ ev.finT # ev.finS THEN <<"C06", "FinitenessDependsOnBatch">>      \* NaN/inf in the batch, finite alone (or vice versa)
+  ELSE IF ~ev.fin THEN <<"-", "NonFinite">>
   ELSE IF ev.kind = "batch" THEN
        (IF ElementIndependence(ev.T, ev.single, ev.same) THEN OK ELSE <<"C06", "ElementIndependence">>)
   ELSE IF ev.kind = "linear" THEN
@@ -17,7 +19,7 @@ BadIdx == {i \in 1..Len(Trace) : Verdict(Trace[i])[1] # "ok"}
 ASSUME PrintT(<<"validated", Len(Trace), "rejected", Cardinality(BadIdx)>>)
 ASSUME \A i \in BadIdx : LET v == Verdict(Trace[i]) IN
    PrintT(<<"REJECT", Trace[i].tid, v[2], v[1], <<Trace[i].kind, Trace[i].field, Trace[i].what,
-            IF Trace[i].kind = "batch" THEN FirstBadElement(Trace[i].T, Trace[i].single, Trace[i].same) ELSE <<0, 0, 0, 0>>>>>>)
+            IF Trace[i].kind = "batch" /\ Trace[i].fin /\ ~Trace[i].raised THEN FirstBadElement(Trace[i].T, Trace[i].single, Trace[i].same) ELSE <<0, 0, 0, 0>>>>>>)
 Init == x = 0
 Next == x' = x
 =============================================================================
